@@ -95,6 +95,16 @@ type sim struct {
 	store []*chainmodel.Block // simulator-owned best chain, index == height
 	salt  uint32
 
+	// the engine's own miner (blocks.go)
+	addrs    []addrInfo                   // watchable addresses: P2WPKH then P2PKH of each key
+	pools    map[*chainmodel.Block][]utxo // candidate unspent outputs per branch
+	inForm   map[chainhash.Hash]string    // txid -> why its input's spent script cannot be derived
+	pkhW     int                          // weight of P2PKH outputs (ordinary outputs: 6)
+	bareW    int                          // weight of bare outputs
+	oddN     int                          // of 4 spends of a P2PKH output, how many are not push-only
+	scOnlyN  int                          // of 12 arbitrary watched inputs, how many are script-only
+	modelBug string
+
 	srcCh chan blockntfns.BlockNtfn
 	held  []blockntfns.BlockNtfn // emitted by the chain, not yet offered to the manager
 	mgr   *blockntfns.SubscriptionManager
@@ -109,13 +119,13 @@ type sim struct {
 	quit     chan struct{}
 	quitDone bool
 
-	via        string
-	lastFilt   map[chainhash.Hash]string
-	fcb, lcb   []cbRec
-	legacyTxs  map[string][]chainhash.Hash
-	updates    []*updSpec
-	notCurLeft int
-	sawNotCur  bool
+	via         string
+	lastFilt    map[chainhash.Hash]string
+	fcb, lcb    []cbRec
+	legacyTxs   map[string][]chainhash.Hash
+	updates     []*updSpec
+	notCurLeft  int
+	sawNotCur   bool
 	isCurAlways bool
 
 	// naive position for probes only
@@ -371,8 +381,8 @@ func (s *sim) handlers(mode int) rpcclient.NotificationHandlers {
 			defer s.mu.Unlock()
 			s.legacyTxs[d.Hash] = append(s.legacyTxs[d.Hash], *tx.Hash())
 		}
-		h.OnRecvTx = note      // nolint:staticcheck
-		h.OnRedeemingTx = note // nolint:staticcheck
+		h.OnRecvTx = note                                                            // nolint:staticcheck
+		h.OnRedeemingTx = note                                                       // nolint:staticcheck
 		h.OnBlockConnected = func(hash *chainhash.Hash, height int32, _ time.Time) { // nolint:staticcheck
 			s.mu.Lock()
 			defer s.mu.Unlock()
@@ -406,13 +416,13 @@ func (s *sim) handlers(mode int) rpcclient.NotificationHandlers {
 func (s *sim) mine(parent *chainmodel.Block) *chainmodel.Block {
 	tp := s.tp
 	s.salt++
-	o := chainmodel.MineOpts{NTx: tp.Intn(4), PayTo: tp.Intn(len(s.tree.Keys)), Salt: s.salt}
+	o := mineOpts{NTx: tp.Intn(4), PayTo: tp.Intn(nKeys), Salt: s.salt}
 	if tp.Chance(1, 6) {
 		// A timestamp that runs backwards (the miner clamps it above the
 		// median time past).
 		o.Time = parent.Hdr.Timestamp.Add(-5 * time.Minute)
 	}
-	return s.tree.Extend(parent, o)
+	return s.extend(parent, o)
 }
 
 // offer hands one event to the real subscription manager and waits until it
@@ -566,17 +576,32 @@ func (s *sim) pendingUpdaters() int {
 
 func (s *sim) pickInput() (neutrino.InputWithScript, bool) {
 	tp := s.tp
-	if tp.Chance(1, 5) {
-		k := s.tree.Keys[tp.Intn(len(s.tree.Keys))]
-		return neutrino.InputWithScript{PkScript: k.Script}, true
+	if tp.Chance(s.scOnlyN, 12) {
+		// Script-only watch: any spend of this script (as far as the
+		// script can be derived from the spending input).
+		n := nKeys
+		if s.pkhW > 0 {
+			n = len(s.addrs)
+		}
+		return neutrino.InputWithScript{PkScript: s.addrs[tp.Intn(n)].Script}, true
 	}
 	b := s.store[tp.Intn(len(s.store))]
-	pool := b.Pool()
+	pool := s.pool(b)
 	if len(pool) == 0 {
 		return neutrino.InputWithScript{}, false
 	}
 	u := pool[tp.Intn(len(pool))]
 	return neutrino.InputWithScript{OutPoint: u.Op, PkScript: u.Script}, true
+}
+
+// pickAddr draws a watchable address (index into s.addrs); the P2PKH
+// addresses only in runs whose chain has such outputs.
+func (s *sim) pickAddr() int {
+	k := s.tp.Intn(nKeys)
+	if s.pkhW > 0 && s.tp.Chance(1, 2) {
+		k += nKeys
+	}
+	return k
 }
 
 func (s *sim) sendUpdate(st int) {
@@ -585,9 +610,9 @@ func (s *sim) sendUpdate(st int) {
 	var opts []neutrino.UpdateOption
 	kind := tp.Intn(6)
 	if kind == 0 || kind == 2 || kind == 5 {
-		k := tp.Intn(len(s.tree.Keys))
+		k := s.pickAddr()
 		u.keys = append(u.keys, k)
-		opts = append(opts, neutrino.AddAddrs(s.tree.Keys[k].Addr))
+		opts = append(opts, neutrino.AddAddrs(s.addrs[k].Addr))
 	}
 	if kind == 1 || kind == 3 || kind == 5 {
 		for i := 0; i < 1+tp.Intn(2); i++ {
@@ -623,7 +648,7 @@ func (s *sim) sendUpdate(st int) {
 	if s.retryPending {
 		s.rc.Probe("update_while_block_waits_for_retry")
 	}
-	s.rc.Logf("update %d: keys=%v inputs=%d rewind=%d silent=%v", u.id, u.keys, len(u.inputs), u.rewind, u.silent)
+	s.rc.Logf("update %d: addrs=%v inputs=%s rewind=%d silent=%v", u.id, u.keys, descInputs(u.inputs), u.rewind, u.silent)
 	go func() {
 		err := s.rescan.Update(opts...)
 		s.mu.Lock()
@@ -676,6 +701,7 @@ type runCfg struct {
 	holdOK       bool
 	maxUpdates   int
 	steps        int
+	oddSpends    bool // P2PKH / bare outputs and spends whose script cannot be derived
 }
 
 func runC09(rc *core.RunCtx) {
@@ -683,6 +709,9 @@ func runC09(rc *core.RunCtx) {
 	s := &sim{rc: rc, tp: tp, lastFilt: map[chainhash.Hash]string{}, legacyTxs: map[string][]chainhash.Hash{}}
 	s.tree = chainmodel.NewTree(chainmodel.NewParams(chainmodel.ParamOpts{}))
 	s.store = []*chainmodel.Block{s.tree.Genesis}
+	s.pools = map[*chainmodel.Block][]utxo{}
+	s.inForm = map[chainhash.Hash]string{}
+	s.initAddrs()
 	s.srcCh = make(chan blockntfns.BlockNtfn, 1)
 	s.quit = make(chan struct{})
 
@@ -705,6 +734,15 @@ func runC09(rc *core.RunCtx) {
 		cfg.steps = tp.Range(20, 220)
 	}
 	s.notCurLeft = tp.Intn(3)
+	// Unusual but legal outputs and spends (benign choice: none, every
+	// output is P2WPKH and every spend carries the ordinary witness).
+	s.scOnlyN = 2
+	if cfg.oddSpends = tp.Chance(2, 3); cfg.oddSpends {
+		s.pkhW = tp.Intn(7)
+		s.bareW = tp.Intn(4)
+		s.oddN = tp.Intn(4)
+		s.scOnlyN = 2 + tp.Intn(5)
+	}
 
 	for i := 0; i < cfg.L0; i++ {
 		s.store = append(s.store, s.mine(s.tip()))
@@ -770,12 +808,16 @@ func runC09(rc *core.RunCtx) {
 	}
 	var initKeys []int
 	for i := 0; i < tp.Intn(3); i++ {
-		k := tp.Intn(len(s.tree.Keys))
+		k := s.pickAddr()
 		initKeys = append(initKeys, k)
-		opts = append(opts, neutrino.WatchAddrs(s.tree.Keys[k].Addr))
+		opts = append(opts, neutrino.WatchAddrs(s.addrs[k].Addr))
 	}
 	var initInputs []neutrino.InputWithScript
-	for i := 0; i < tp.Intn(3); i++ {
+	nInit := tp.Intn(3)
+	if cfg.oddSpends {
+		nInit = tp.Intn(4)
+	}
+	for i := 0; i < nInit; i++ {
 		var in neutrino.InputWithScript
 		ok := false
 		if tp.Chance(1, 2) {
@@ -784,7 +826,7 @@ func runC09(rc *core.RunCtx) {
 			if base > cfg.L0 {
 				base = cfg.L0
 			}
-			if pool := s.store[base].Pool(); len(pool) > 0 {
+			if pool := s.pool(s.store[base]); len(pool) > 0 {
 				u := pool[tp.Intn(len(pool))]
 				in, ok = neutrino.InputWithScript{OutPoint: u.Op, PkScript: u.Script}, true
 			}
@@ -806,7 +848,8 @@ func runC09(rc *core.RunCtx) {
 		c := *endOpt
 		endCopy = &c
 	}
-	rc.Logf("cfg %+v start=%v startTime=%v end=%v keys=%v inputs=%d", cfg, startOpt, !startTime.IsZero(), endOpt, initKeys, len(initInputs))
+	rc.Logf("cfg %+v start=%v startTime=%v end=%v addrs=%v inputs=%s", cfg, startOpt, !startTime.IsZero(), endOpt, initKeys, descInputs(initInputs))
+	rc.Logf("outputs: weights wpkh=6 pkh=%d bare=%d; non push-only spends of P2PKH outputs %d/4; script-only watches %d/12", s.pkhW, s.bareW, s.oddN, s.scOnlyN)
 	rc.Probe(fmt.Sprintf("start_variant_%d", cfg.startVariant))
 
 	s.mgr = blockntfns.NewSubscriptionManager(&source{s})
@@ -962,9 +1005,12 @@ func runC09(rc *core.RunCtx) {
 
 	// ---------------------------------------------------------------
 	// Oracle.
+	if s.modelBug != "" {
+		rc.Infra("model miner: %s", s.modelBug)
+	}
 	start := s.resolveStart(startCopy, endCopy)
 	facts := map[string]string{"faults": fmt.Sprint(cfg.faults)}
-	w0 := newWatch(s.tree)
+	w0 := newWatch(s)
 	for _, k := range initKeys {
 		w0.addKey(k)
 	}
@@ -1002,7 +1048,7 @@ func runC09(rc *core.RunCtx) {
 	rc.Res.Nontrivial = nConn >= 3 && (nChecked > 0 || nDisc > 0)
 	rc.Res.Sample = map[string]any{"initial_chain": cfg.L0, "final_height": len(s.store) - 1, "blocks_in_tree": len(s.tree.ByHash),
 		"start_variant": cfg.startVariant, "connects": nConn, "disconnects": nDisc, "relevant_txs_checked": nChecked,
-		"updates": len(s.updates), "faults": cfg.faults, "steps": rc.Res.Steps,
+		"updates": len(s.updates), "faults": cfg.faults, "steps": rc.Res.Steps, "odd_spends": cfg.oddSpends,
 		"callbacks_digest": hex.EncodeToString(dg.Sum(nil)[:8])}
 }
 
@@ -1180,20 +1226,23 @@ func (s *sim) resolveStart(startOpt, endOpt *headerfs.BlockStamp) *chainmodel.Bl
 }
 
 type watch struct {
-	tree    *chainmodel.Tree
+	s       *sim
 	scripts map[string]bool        // scripts of watched addresses
 	ops     map[wire.OutPoint]bool // watched outpoints
 	derived map[wire.OutPoint]bool // ... of which created earlier in the rescan
 	spendSc map[string]bool        // "any spend of this script" (zero outpoint)
+	// afterSc: outpoints that came to be watched when a script-only watch
+	// was already in the list (for probes only).
+	afterSc map[wire.OutPoint]bool
 }
 
-func newWatch(t *chainmodel.Tree) *watch {
-	return &watch{tree: t, scripts: map[string]bool{}, ops: map[wire.OutPoint]bool{},
-		derived: map[wire.OutPoint]bool{}, spendSc: map[string]bool{}}
+func newWatch(s *sim) *watch {
+	return &watch{s: s, scripts: map[string]bool{}, ops: map[wire.OutPoint]bool{},
+		derived: map[wire.OutPoint]bool{}, spendSc: map[string]bool{}, afterSc: map[wire.OutPoint]bool{}}
 }
 
 func (w *watch) clone() *watch {
-	c := newWatch(w.tree)
+	c := newWatch(w.s)
 	for k := range w.scripts {
 		c.scripts[k] = true
 	}
@@ -1203,19 +1252,40 @@ func (w *watch) clone() *watch {
 	for k := range w.spendSc {
 		c.spendSc[k] = true
 	}
+	for k := range w.afterSc {
+		c.afterSc[k] = true
+	}
 	return c
 }
 
-func (w *watch) addKey(k int) { w.scripts[string(w.tree.Keys[k].Script)] = true }
+func (w *watch) addKey(k int) { w.scripts[string(w.s.addrs[k].Script)] = true }
+
+func (w *watch) addOp(op wire.OutPoint) {
+	if !w.ops[op] && len(w.spendSc) > 0 {
+		w.afterSc[op] = true
+	}
+	w.ops[op] = true
+}
 
 func (w *watch) addInput(in neutrino.InputWithScript) {
 	if in.OutPoint == (wire.OutPoint{}) {
 		w.spendSc[string(in.PkScript)] = true
 	} else {
-		w.ops[in.OutPoint] = true
+		w.addOp(in.OutPoint)
 	}
 }
 
+func descInputs(ins []neutrino.InputWithScript) string {
+	var out []string
+	for _, in := range ins {
+		if in.OutPoint == (wire.OutPoint{}) {
+			out = append(out, fmt.Sprintf("script:%x", in.PkScript))
+		} else {
+			out = append(out, fmt.Sprintf("%s:%d", in.OutPoint.Hash.String()[:10], in.OutPoint.Index))
+		}
+	}
+	return "[" + strings.Join(out, " ") + "]"
+}
 
 // checkWalk replays one callback sequence against the model tree. It returns
 // the number of relevant transactions it verified to be delivered.
@@ -1314,19 +1384,40 @@ func (s *sim) checkWalk(name string, cbs []cbRec, start *chainmodel.Block, start
 		}
 		for j, tx := range blk.Msg.Transactions {
 			why := ""
+			th := tx.TxHash()
+			// "" if the spent script can be derived from the input.
+			form := s.inForm[th]
+			input := "ordinary"
 			if j > 0 {
 				op := tx.TxIn[0].PreviousOutPoint
 				switch {
+				// A watched outpoint is spent whatever the spending
+				// input looks like.
 				case w.derived[op]:
 					why = "spends-outpoint-created-earlier"
 				case w.ops[op]:
 					why = "spends-watched-outpoint"
-				case w.spendSc[string(blk.PrevScripts[j-1])]:
+				// A script-only watch can only be honoured when the
+				// input reveals which script it spends; nothing is
+				// demanded otherwise.
+				case form == "" && w.spendSc[string(blk.PrevScripts[j-1])]:
 					why = "spends-watched-script"
+				case w.spendSc[string(blk.PrevScripts[j-1])]:
+					rc.Probe("spend_of_watched_script_not_derivable_nothing_demanded")
+				}
+				if form != "" {
+					input = form
+				}
+				if form != "" && why != "" {
+					rc.Probe("outpoint_spent_by_" + form)
+					if w.afterSc[op] {
+						rc.Probe("outpoint_watched_after_script_only_watch_spent_by_underivable_input")
+					} else if len(w.spendSc) > 0 {
+						rc.Probe("outpoint_watched_before_script_only_watch_spent_by_underivable_input")
+					}
 				}
 			}
 			var created []wire.OutPoint
-			th := tx.TxHash()
 			for oi, out := range tx.TxOut {
 				if w.scripts[string(out.PkScript)] {
 					if why == "" {
@@ -1339,9 +1430,9 @@ func (s *sim) checkWalk(name string, cbs []cbRec, start *chainmodel.Block, start
 				continue
 			}
 			if !cb.txs[th] {
-				rc.Failf("missed-tx", mk("via", cb.via, "why", why, "filter", cb.filt, "rewalk", fmt.Sprint(seen[blk.Hash] > 1)),
-					"%s callback %d connects block %s without transaction %s (index %d) which %s (delivered %d txs)",
-					name, i, short(blk), th.String()[:10], j, why, len(cb.txs))
+				rc.Failf("missed-tx", mk("via", cb.via, "why", why, "filter", cb.filt, "rewalk", fmt.Sprint(seen[blk.Hash] > 1), "input", input),
+					"%s callback %d connects block %s without transaction %s (index %d, input: %s) which %s (delivered %d txs)",
+					name, i, short(blk), th.String()[:10], j, input, why, len(cb.txs))
 			}
 			checked++
 			rc.Probe("tx_" + why)
@@ -1349,7 +1440,7 @@ func (s *sim) checkWalk(name string, cbs []cbRec, start *chainmodel.Block, start
 				rc.Probe("tx_in_rewalked_block")
 			}
 			for _, op := range created {
-				w.ops[op] = true
+				w.addOp(op)
 				w.derived[op] = true
 			}
 		}
